@@ -37,6 +37,12 @@ def setup(ex):
     shims.install(T, _logger=NullLog())
 
 
+def setup_join(ex):
+    setup(ex)
+    T = _mods()
+    shims.rewrite_function(T.Input, 'update_scripts')
+
+
 class FSig:
     def __init__(self, idx):
         self.idx = idx
@@ -223,6 +229,7 @@ def h_commitment(ex, kind, other_kinds, max_out=2, outlens=(0, 1, 25)):
     locktime = ex.int('locktime', 0, 2 ** 32 - 1)
     t = T.Transaction.__new__(T.Transaction)
     t.version = version.to_bytes(4, 'big')
+    t.version_int = version          # the constructor keeps both representations
     t.locktime = locktime
     t.inputs, t.outputs, t.size = [], [], 1
     kinds = []
@@ -309,14 +316,50 @@ def h_commitment(ex, kind, other_kinds, max_out=2, outlens=(0, 1, 25)):
     ex.check(not res, 'tampered-%s-fails-verification' % f.rstrip('0123456789'), known=known)
 
 
+class _DerSig:
+    def __init__(self, der):
+        self.der = der
+        self.public_key = None
+        self.hash_type = 1
+
+    def as_der_encoded(self, *a, **k):
+        return self.der
+
+
+def h_resign_scripts(ex, kind):
+    """Input.update_scripts after RE-signing: the serialized unlocking data (scriptSig or witness) must carry the
+    signature that is now in Input.signatures, not the one from the first signing"""
+    T, E, S, K = c01._mods()
+    inp, _, _, _ = c01.mk_input(ex, T, K, 0, kind, 1)
+    sl = ex.choose('siglen', [71, 72])
+    a = _DerSig(b'\x30' + ex.bytes('sig_a', sl - 1) + b'\x01')
+    b = _DerSig(b'\x30' + ex.bytes('sig_b', sl - 1) + b'\x01')
+    ex.assume(s_not(c01._eq(a.der, b.der)))
+    inp.signatures = [a]
+    inp.update_scripts()
+    first_us, first_w = inp.unlocking_script, list(inp.witnesses)
+    inp.signatures = [b]
+    inp.update_scripts()
+    key = inp.keys[0].public_byte
+    want_items = [b.der, key]
+    if kind == 'p2pkh':
+        want = bytes([len(b.der)]) + b.der + bytes([len(key)]) + key
+        ex.check(c01._eq(inp.unlocking_script, want), 'resigned-scriptsig-carries-current-signature')
+    else:
+        ex.check(len(inp.witnesses) == 2 and c01._eq(inp.witnesses[0], b.der) and c01._eq(inp.witnesses[1], key),
+                 'resigned-witness-carries-current-signature')
+
+
 def jobs(tier):
     q = tier == 'quick'
     J = [Job('counting', h_counting, W=40, setup=setup, params=dict(maxn=3 if q else 4), budget_s=3000),
          Job('placement', h_placement, W=40, setup=setup, params=dict(maxn=3, ncalls=3 if q else 4), budget_s=3000),
          Job('foreign_key', h_foreign_key, W=40, setup=setup)]
+    for kind in ('p2pkh', 'p2wpkh', 'p2sh_p2wpkh'):
+        J.append(Job('resign_%s' % kind, h_resign_scripts, W=72, setup=setup_join, params=dict(kind=kind)))
     for kind in c01.KINDS:
         legacy = c01.KINDS[kind][1] == 'legacy'
-        pq = dict(kind=kind, other_kinds=['p2wpkh'] if legacy else ['p2pkh'], max_out=2, outlens=(1, 25))
+        pq = dict(kind=kind, other_kinds=['p2wpkh'] if legacy else ['p2pkh'], max_out=1, outlens=(1, 25))
         pt = dict(kind=kind, other_kinds=['p2pkh', 'p2wpkh'])
         j = Job('commitment_%s' % kind, h_commitment, W=72, setup=setup, params=pq if q else pt, budget_s=3000)
         j.cost = 50
